@@ -296,6 +296,9 @@ func checkPrefix(c *caseOut, h *History, cfg config.Blockchain, nb int, accepted
 		return
 	}
 	got := observe(bc, h, hh)
+	if h.Ref[hh].partial {
+		c.cnt.count("harness:reference-observation-missing")
+	}
 	if d := h.Ref[hh].diff(&got, skip); len(d) > 0 {
 		c.fail(tag+"recover-"+d[0], "prefix %d: recovered node at height %d differs from the reference in %v: ref %q got %q", k, hh, d, h.Ref[hh].get(d[0]), got.get(d[0]))
 		return
